@@ -164,18 +164,28 @@ func (ip *interposer) apply(a ipAction, req *http.Request) {
 		time.Sleep(time.Duration(a.DelayMs) * time.Millisecond)
 	case "kill-target":
 		if m := ip.machineOfRequest(req); m != nil {
-			if ip.sys.Kill(m) {
-				ip.mu.Lock()
-				ip.killed = append(ip.killed, m.Addr)
-				ip.mu.Unlock()
-			}
+			ip.kill(m, m.Addr)
 		}
 	case "kill-any":
-		if ip.sys.Kill(nil) {
-			ip.mu.Lock()
-			ip.killed = append(ip.killed, "any")
-			ip.mu.Unlock()
-		}
+		ip.kill(nil, "any")
+	}
+}
+
+// kill kills a machine without waiting for ever: testsystem's Kill closes the machine's HTTP
+// server and waits for its outstanding requests, which never ends when the RPC being intercepted
+// is itself issued from a handler of that server (worker-to-worker calls of in-process workers).
+func (ip *interposer) kill(m *bigmachine.Machine, label string) {
+	done := make(chan bool, 1)
+	go func() { done <- ip.sys.Kill(m) }()
+	ok := true
+	select {
+	case ok = <-done:
+	case <-time.After(300 * time.Millisecond):
+	}
+	if ok {
+		ip.mu.Lock()
+		ip.killed = append(ip.killed, label)
+		ip.mu.Unlock()
 	}
 }
 
@@ -242,8 +252,9 @@ func startSession(c sessConf, actions ...ipAction) *liveSession {
 	}
 	if c.Keepalive > 0 {
 		ts.KeepalivePeriod = time.Duration(c.Keepalive) * time.Millisecond
-		ts.KeepaliveTimeout = 2 * ts.KeepalivePeriod
-		ts.KeepaliveRpcTimeout = ts.KeepalivePeriod
+		// generous relative to the period: a loaded host must not make live machines look dead
+		ts.KeepaliveTimeout = 10 * ts.KeepalivePeriod
+		ts.KeepaliveRpcTimeout = 5 * ts.KeepalivePeriod
 	}
 	sys := &ipSystem{System: ts}
 	ip := &interposer{sys: sys, next: ts.HTTPClient().Transport, counts: map[string]int{}, actions: actions, lastAct: time.Now().UnixNano()}
